@@ -20,11 +20,11 @@ type propPlan struct {
 
 var propPlans = []propPlan{
 	{ID: "C01", Title: "Muxer preserves every accepted access unit",
-		Rules:      []string{"CG0", "F5", "F6", "F10", "F16", "F17", "G13", "T6", "N3", "G2", "P1", "T7b", "F5b", "T6d", "T7g", "F28", "T10", "G13b", "P3", "P3b", "F35", "K5p", "F33", "F41", "F42", "F43", "F44", "F45", "F46", "F47", "G14", "T7t", "P8", "T7c", "L5c", "F51", "F41b", "G2c", "F45b", "F51b", "T7", "T6j", "G9", "P2", "F22d", "T6k", "F6b"},
+		Rules:      []string{"CG0", "F5", "F6", "F10", "F16", "F17", "G13", "T6", "N3", "G2", "P1", "T7b", "F5b", "T6d", "T7g", "F28", "T10", "G13b", "P3", "P3b", "F35", "K5p", "F33", "F41", "F42", "F43", "F44", "F45", "F46", "F47", "G14", "T7t", "P8", "T7c", "L5c", "F51", "F41b", "G2c", "F45b", "F51b", "T7", "T6j", "G9", "P2", "F22d", "T6k", "F6b", "F5c"},
 		NotDecided: "byte identity through mediacommon's marshaller; timestamp arithmetic (duration = next - this, base-time contiguity); cross-track interleaving; the result for any particular input.",
 		LevelText:  "Structural necessary conditions of exactly-once delivery of written units (look-ahead hand-off, part drain, payload immutability, skip-until-random-access, the 10 s constant, which time source feeds which time sink, every stream rotated at every boundary) decided on every CFG path; not the value-level equality itself."},
 	{ID: "C02", Title: "Segment boundaries",
-		Rules:      []string{"CG0", "G1", "G12", "G13", "G3", "T6", "F2", "F1", "L8", "G14", "T6d", "F22c", "T6e", "T10", "G1b", "T6f", "T8", "T6g", "F33", "F42", "F43", "T6h", "F21", "L5c", "P8b", "T6i", "T6j", "F2c", "F5", "T6k"},
+		Rules:      []string{"CG0", "G1", "G12", "G13", "G3", "T6", "F2", "F1", "L8", "G14", "T6d", "F22c", "T6e", "T10", "G1b", "T6f", "T8", "T6g", "F33", "F42", "F43", "T6h", "F21", "L5c", "P8b", "T6i", "T6j", "F2c", "F5", "T6k", "G1c"},
 		NotDecided: "PAT/PMT at the start of MPEG-TS segments (emitted inside mediacommon); 'never skipped when due' for inputs without random-access units; the contents of the init segment.",
 		LevelText:  "The cut condition, the pending-parameter typestate of the four video writers (every recorded parameter change raises it), forced-rotation marking and same-instant rotation of all streams are decided on every path; values are not."},
 	{ID: "C03", Title: "Playlist durations, target durations, date-times",
@@ -32,15 +32,15 @@ var propPlans = []propPlan{
 		NotDecided: "equality of declared and actual media time (needs the samples); PART-TARGET >= every part beyond 'ceil of max over listed parts'.",
 		LevelText:  "Telescoping of durations, monotone target duration, rounding directions, hold-back/skip factors and text resolution are decided structurally."},
 	{ID: "C04", Title: "Playlist evolution",
-		Rules:      []string{"CG0", "G3", "G8", "G9", "G13", "F2", "N1", "N2", "L8", "P3", "G15", "G8b", "L1", "G13b", "F3", "F26b", "G17", "G4d", "P3e", "P5b", "P5c", "G18", "G9d", "G19", "G3d", "G20", "F1"},
+		Rules:      []string{"CG0", "G3", "G8", "G9", "G13", "F2", "N1", "N2", "L8", "P3", "G15", "G8b", "L1", "G13b", "F3", "F26b", "G17", "G4d", "P3e", "P5b", "P5c", "G18", "G9d", "G19", "G3d", "G20", "F1", "P11"},
 		NotDecided: "the relation between two successive responses (a history property) beyond the per-step invariants; arithmetic on runtime counters.",
 		LevelText:  "Per-step inductive invariants of the window and its counters are decided on every path of the rotation functions."},
 	{ID: "C05", Title: "Advertised URIs are fetchable, immutable, consistent",
-		Rules:      []string{"CG0", "P1", "P2", "P3", "P3b", "P4", "P5", "P6", "F2", "F15", "T7", "T7b", "T7c", "T7e", "G3", "T7f", "T7g", "V4g", "P3c", "T7m", "T7n", "L4", "F26b", "P7", "P5b", "F34", "T7q", "F44", "P5c", "T7t", "P8", "G18", "P3g", "P8b", "L9", "P3h", "P9", "F2c", "T7d", "T7p", "T7v", "P3j", "P6c"},
+		Rules:      []string{"CG0", "P1", "P2", "P3", "P3b", "P4", "P5", "P6", "F2", "F15", "T7", "T7b", "T7c", "T7e", "G3", "T7f", "T7g", "V4g", "P3c", "T7m", "T7n", "L4", "F26b", "P7", "P5b", "F34", "T7q", "F44", "P5c", "T7t", "P8", "G18", "P3g", "P8b", "L9", "P3h", "P9", "F2c", "T7d", "T7p", "T7v", "P3j", "P6c", "P11"},
 		NotDecided: "byte equality of a segment and its concatenated parts on disk (offset arithmetic); HTTP semantics outside the handlers.",
 		LevelText:  "Publication protocol: final before published, never written afterwards without the reader's lock, listed = registered, unregistered on expiry, response shape."},
 	{ID: "C06", Title: "Blocking reload, preload hints, delta updates",
-		Rules:      []string{"CG0", "L1", "L2", "L3", "L8", "L9", "F3", "G7", "G7b", "G7c", "G8", "G9", "N2", "N1", "G15", "G7d", "G3", "G7e", "G7f", "G7g", "F26b", "G7h", "F3b", "G7i", "G7j", "P3d", "G4d", "P3b", "L2b", "G7k", "G9b", "G7l", "G9c", "G7m", "P3f", "G9d", "L3h", "L4", "F9", "L2c", "G7n", "T7b", "V4n", "G19", "L2d"},
+		Rules:      []string{"CG0", "L1", "L2", "L3", "L8", "L9", "F3", "G7", "G7b", "G7c", "G8", "G9", "N2", "N1", "G15", "G7d", "G3", "G7e", "G7f", "G7g", "F26b", "G7h", "F3b", "G7i", "G7j", "P3d", "G4d", "P3b", "L2b", "G7k", "G9b", "G7l", "G9c", "G7m", "P3f", "G9d", "L3h", "L4", "F9", "L2c", "G7n", "T7b", "V4n", "G19", "L2d", "F3c"},
 		NotDecided: "which (M,P) are accepted or rejected (unsigned arithmetic on runtime counters); what the unblocked response contains; telling an absent _HLS_part from _HLS_part=0.",
 		LevelText:  "Wait/wake discipline over all schedules, _HLS_* filtering, delta-update shape, roll-over reaching the open segment, rejection bounds that track the live window, no response body written under a muxer lock."},
 	{ID: "C07", Title: "Close unblocks every request and releases storage",
@@ -56,7 +56,7 @@ var propPlans = []propPlan{
 		NotDecided: "sample identity, time-origin arithmetic, AbsoluteTime.",
 		LevelText:  "Agreement of the muxer's and the client's codec and rendition tables; role and unit consistency of the time conversions (which source feeds which sink, rescaling from the stored rate to the caller's), segment identity computed within one playlist. Values are not decided."},
 	{ID: "C10", Title: "Client delivers every sample with normalised time",
-		Rules:      []string{"CG0", "G5", "K6", "F8", "F11", "F12", "F14", "F16", "F17", "F18", "F21", "F22", "F24", "F22b", "G16", "L4e", "G16b", "K7", "F8b", "F32", "F20", "T13", "F37", "F38", "F39", "F40", "F48", "K16", "F36", "L3d", "L4c", "F50", "K18", "F52", "F40b", "K19", "K14", "F53", "F8c", "K21", "F7n", "F7c", "T5c", "F39b", "F54", "F55", "F56", "F8d", "F35", "F45b", "F57", "F8e"},
+		Rules:      []string{"CG0", "G5", "K6", "F8", "F11", "F12", "F14", "F16", "F17", "F18", "F21", "F22", "F24", "F22b", "G16", "L4e", "G16b", "K7", "F8b", "F32", "F20", "T13", "F37", "F38", "F39", "F40", "F48", "K16", "F36", "L3d", "L4c", "F50", "K18", "F52", "F40b", "K19", "K14", "F53", "F8c", "K21", "F7n", "F7c", "T5c", "F39b", "F54", "F55", "F56", "F8d", "F35", "F45b", "F57", "F8e", "F58"},
 		NotDecided: "all timestamp arithmetic (rescaling, 33-bit unwrap, NTP extrapolation); sample identity.",
 		LevelText:  "Thin: no negative-time delivery, all times through the leading converter, the stream/track hand-shake cannot wedge; running clocks advance on every iteration; track times are converted with the track's clock rate and rescaled in the right direction; segment identity computed within one playlist."},
 	{ID: "C11", Title: "Segment selection",
@@ -64,16 +64,16 @@ var propPlans = []propPlan{
 		NotDecided: "index arithmetic against a moving MEDIA-SEQUENCE; Range header values.",
 		LevelText:  "Start/next/limit constants, re-fetch and throttle between downloads, URL resolution, delta request that keeps the URL's own query, Range ends that depend on start and length, id and position taken from one playlist, EOS sentinel."},
 	{ID: "C12", Title: "Client termination",
-		Rules:      []string{"CG0", "K1", "K2", "K3", "K4", "K5", "L1", "L7", "F27", "L3e", "K2b", "K1b", "K5b", "K9", "K4b", "K11", "K15", "K12", "K13", "K17", "F7i", "K20", "K22", "K2c", "K4c", "K23"},
+		Rules:      []string{"CG0", "K1", "K2", "K3", "K4", "K5", "L1", "L7", "F27", "L3e", "K2b", "K1b", "K5b", "K9", "K4b", "K11", "K15", "K12", "K13", "K17", "F7i", "K20", "K22", "K2c", "K4c", "K23", "K24", "K5c"},
 		Assume:     []string{"user callbacks return", "the HTTP transport honours request contexts"},
 		NotDecided: "nothing further of the structural clauses; timing ('promptly') is not decided.",
 		LevelText:  "Every goroutine is pooled, every blocking operation is cancellable by the pool context, cancel-join-send happens once. Argued sufficient (DESIGN 4, C12) for 'once Wait yields no client goroutine is running, exactly one value is yielded'."},
 	{ID: "C13", Title: "Malformed server content",
-		Rules:      []string{"CG0", "V4a", "V4b", "V4c", "V4d", "V4e", "T4", "K6", "K2", "V3", "V4f", "V2", "V4h", "K3", "V5", "K8", "K5b", "K9", "K10", "K14", "K15", "K11", "K16", "K17", "K18", "V4m", "K19", "F7s", "K21", "K22", "F12", "K23", "K5c"},
+		Rules:      []string{"CG0", "V4a", "V4b", "V4c", "V4d", "V4e", "T4", "K6", "K2", "V3", "V4f", "V2", "V4h", "K3", "V5", "K8", "K5b", "K9", "K10", "K14", "K15", "K11", "K16", "K17", "K18", "V4m", "K19", "F7s", "K21", "K22", "F12", "K23", "K5c", "K24", "F58"},
 		NotDecided: "nil dereferences; busy loops in general; allocation sizes inside mediacommon.",
 		LevelText:  "The enumerated panic sources of client code (type assertions, zero divisors, nil function fields incl. every construction site, optional pointers, unchecked map lookups), no silent nil decoder, no wedge on absurd fragment counts."},
 	{ID: "C14", Title: "Marshal/Unmarshal round trip",
-		Rules:      []string{"T1", "T2", "T3", "S1", "S2", "S4", "V1b", "V3b", "F23", "T9", "P2b", "T3b", "T11", "T12", "T14", "T13", "K5p", "T15", "T16", "T17", "T18", "T19", "T20", "T21", "T23", "T26", "T22", "T25", "T28", "T29", "T30", "T31", "T32", "T33", "T34", "T35"},
+		Rules:      []string{"T1", "T2", "T3", "S1", "S2", "S4", "V1b", "V3b", "F23", "T9", "P2b", "T3b", "T11", "T12", "T14", "T13", "K5p", "T15", "T16", "T17", "T18", "T19", "T20", "T21", "T23", "T26", "T22", "T25", "T28", "T29", "T30", "T31", "T32", "T33", "T34", "T35", "T36"},
 		NotDecided: "value-level equality (float formatting of arbitrary values, key inheritance between segments, time zones, sign handling).",
 		LevelText:  "Every field, under the right tag and attribute name, in both directions; what is written can be tokenised back; strings are printed verbatim; the key tag is printed iff the key changed; integers are decimal on both sides."},
 	{ID: "C15", Title: "Decoder total, encoder grammatical",
@@ -81,7 +81,7 @@ var propPlans = []propPlan{
 		NotDecided: "the full RFC 8216 grammar; termination as such; escaping of caller-supplied strings inside quoted attributes.",
 		LevelText:  "Bounds ledger + validated structure + loop progress for the two playlist packages over all byte strings (modulo nil dereferences); grammar-shape conditions on everything Marshal can emit."},
 	{ID: "C16", Title: "Multivariant playlist",
-		Rules:      []string{"CG0", "F3", "F4", "F9", "F13", "G11", "T5", "T4", "T7c", "G14", "G11b", "P5", "T6e", "L8", "P2b", "L2", "G11c", "F31", "T6g", "F3b", "G11d", "G11e", "G11f", "G11g", "G11i", "G11j", "G11h", "G18", "G11k", "G11l", "G19", "G11n", "G20", "T6j", "T26", "G11o", "T5c", "G11p"},
+		Rules:      []string{"CG0", "F3", "F4", "F9", "F13", "G11", "T5", "T4", "T7c", "G14", "G11b", "P5", "T6e", "L8", "P2b", "L2", "G11c", "F31", "T6g", "F3b", "G11d", "G11e", "G11f", "G11g", "G11i", "G11j", "G11h", "G18", "G11k", "G11l", "G19", "G11n", "G20", "T6j", "T26", "G11o", "T5c", "G11p", "G11q", "F3c"},
 		NotDecided: "which rendition is DEFAULT for a given track list; bandwidth values; RESOLUTION/FRAME-RATE values.",
 		LevelText:  "Query preserved on every URI (filtered by re-encoding the parsed query), rendition attributes carried, CODECS entry per track computed when rendering, exactly one automatic DEFAULT; FRAME-RATE only under a non-zero FPS(); a rendition's language is its track's; no map iteration order in the re-encoded query; the segment sizes that feed BANDWIDTH telescope over all parts. Values are not decided."},
 	{ID: "C17", Title: "Storage",
@@ -89,7 +89,7 @@ var propPlans = []propPlan{
 		NotDecided: "byte-for-byte equivalence, offsets, reader cursor logic.",
 		LevelText:  "Thin: no read before Finalize in both backends, mirror writer forwards identically, disk part windows and offsets, reader progress (no (0, nil) without a full destination), Remove removes what Create created and does nothing else (no store, no truncation), a slice is clamped to the bound its length was tested against."},
 	{ID: "C18", Title: "Bounded retention",
-		Rules:      []string{"CG0", "G2", "G3", "P3", "P6", "P3c", "G17", "P3e", "K5p", "F33", "G2b", "P5c", "P6b", "P3g", "P3h", "P3i", "G2c", "L5c", "P3j", "P6c"},
+		Rules:      []string{"CG0", "G2", "G3", "P3", "P6", "P3c", "G17", "P3e", "K5p", "F33", "G2b", "P5c", "P6b", "P3g", "P3h", "P3i", "G2c", "L5c", "P3j", "P6c", "T7t"},
 		NotDecided: "byte totals per segment.",
 		LevelText:  "Size check before buffering; the window head is dropped whenever the window is over its bound, with its path, its part paths and its file; files released."},
 	{ID: "C19", Title: "LL-HLS parts are regular",
